@@ -2,7 +2,8 @@ import Driver.Run
 import Driver.Fam.Entry
 import Driver.Fam.Extra
 import Driver.Fam.Big
+import Driver.Fam.EntryFS
 open Driver
 /-- families of area "entry" (C10 coverage audit: uncovered entry points, path-taking wrappers) -/
 def main (args : List String) : IO UInt32 :=
-  run [Fam.Entry.entrymut, Fam.Entry.filewrap, Fam.Extra.extra, Fam.Big.bigmut, Fam.Big.resource] args
+  run [Fam.Entry.entrymut, Fam.Entry.filewrap, Fam.Extra.extra, Fam.Big.bigmut, Fam.Big.resource, Fam.EntryFS.fskind] args
